@@ -26,6 +26,9 @@ def run(ctx, rep):
     rep.rule("O4", "Heisenberg picture: a POVM vector multiplies an HS matrix from the left (vec @ hs, or hs.T @ vec); the outcome "
                    "probability of a measurement process is the trace functional of the unnormalised post-state and the post-state is "
                    "divided by that same probability", floor=4)
+    rep.rule("S2", "projective back-action (mode 1): for a repeated eigenvalue the rank-1 projectors are summed to the eigenspace projector "
+                   "P before the quadratic term kron(P, conj P) is formed (the sum of per-vector terms drops the cross terms and dephases the "
+                   "state inside the eigenspace)", floor=1)
     rep.rule("S1", "projective back-action (mode 1): eigenvectors are taken as columns and projectors are v v-dagger", floor=2)
     rep.rule("O5", "compose_qoperations folds right-to-left: the last argument is applied first", floor=1)
     f = ix.func(OP + "_compose_qoperations")
@@ -116,6 +119,7 @@ def run(ctx, rep):
             rep.holds("S1", g, fd.node, fd.text, node=fd.node)
         elif fd.ok is False:
             rep.violation("S1", g, fd.node, fd.text, node=fd.node)
+    _s2_eigenspace(ctx, rep, g)
     # ---- O5
     c = ix.func(OP + "compose_qoperations")
     txt = [unparse(s) for s in c.node.body]
@@ -162,3 +166,40 @@ def _o4_probability(ctx, rep):
         ok = ok and "Mx_rhos.append(Mx_rho)" in apps and "ps.append(p_x)" in apps
     rep.check(ok, "O4", h, "post-measurement state", "rho_x = (M rho)_x / p_x with the probability of the same outcome",
               "the post-measurement state is not the unnormalised state divided by its own probability", node=h.node)
+
+
+
+def _s2_eigenspace(ctx, rep, g):
+    groups = [n for n in own_nodes(g.node) if isinstance(n, ast.For) and isinstance(n.iter, ast.Call) and isinstance(n.iter.func, ast.Attribute)
+              and n.iter.func.attr == "items" and isinstance(n.target, ast.Tuple) and len(n.target.elts) == 2
+              and all(isinstance(x, ast.Name) for x in n.target.elts)]
+    if len(groups) != 1:
+        rep.undecided("S2", g, "eigenvalue groups", "expected one loop over (eigenvalue, projectors) groups, found %d" % len(groups))
+        return
+    lp = groups[0]
+    ev, ps = lp.target.elts[0].id, lp.target.elts[1].id
+    body = [x for st in lp.body for x in ast.walk(st)]
+    group_names, elem_names = set(), set()
+    for n in body:
+        if isinstance(n, ast.Assign) and len(n.targets) == 1 and isinstance(n.targets[0], ast.Name):
+            t = unparse(n.value).replace(" ", "")
+            if t in ("reduce(add,%s)" % ps, "sum(%s)" % ps, "np.sum(%s,axis=0)" % ps, "functools.reduce(add,%s)" % ps, "reduce(operator.add,%s)" % ps):
+                group_names.add(n.targets[0].id)
+        if isinstance(n, (ast.For, ast.comprehension)) and isinstance(n.target, ast.Name) and unparse(n.iter) == ps:
+            elem_names.add(n.target.id)
+    krons = [n for n in body if isinstance(n, ast.Call) and (dotted(n.func) or "").split(".")[-1] == "kron" and len(n.args) == 2]
+    if not krons:
+        rep.undecided("S2", g, "quadratic term", "no kron(P, conj P) inside the group loop")
+        return
+    from ..matexpr import product
+    for k in krons:
+        bases = {f[0] for a in k.args for f in product(a)}
+        con = unparse(k)
+        if bases and bases <= group_names:
+            rep.holds("S2", g, con, "kron of the summed eigenspace projector", node=k)
+        elif bases & elem_names:
+            rep.violation("S2", g, con, "the quadratic term is formed per eigenvector (%s ranges over the projectors of one eigenvalue) and the terms are "
+                          "added: sum_i kron(P_i, conj P_i) lacks the cross terms of kron(sum P_i, conj sum P_i), so coherence inside a "
+                          "degenerate eigenspace is destroyed" % sorted(bases & elem_names), node=k)
+        else:
+            rep.undecided("S2", g, con, "operands %s are neither the summed projector nor single projectors of the group" % sorted(bases))
